@@ -595,6 +595,9 @@ var notDSL = []string{
 	"func f(s string) bool { return s == `` }\nfunc g(m dsl.Matcher) { h := func(v dsl.Var) bool { return f(`a`) && v.Pure }; f := func(s string) bool { return m[`x`].Text.Matches(s) }; m.Match(`$x + $y`).Where(h(m[`x`]) && f(`a`)).Report(`x`) }",
 	"func f(v dsl.Var) bool { return true }\nfunc h(v dsl.Var) bool { return true }\nfunc g(m dsl.Matcher) { f := func(v dsl.Var) bool { return h(v) }; h := func(v dsl.Var) bool { return f(v) }; m.Match(`$x + $y`).Where(h(m[`x`])).Report(`x`) }",
 	"func f(v dsl.Var) bool { return true }\nfunc h(v dsl.Var) bool { return true }\nfunc g(m dsl.Matcher) { h := func(v dsl.Var) bool { return f(v) }; f := func(v dsl.Var) bool { return h(v) }; m.Match(`$x + $y`).Where(f(m[`x`])).Report(`x`) }",
+	"func f(n int) bool { return n > 1 }\nfunc g(m dsl.Matcher) { h := func(v dsl.Var) bool { return f(8) && v.Pure }; f := func() bool { return m[`x`].Pure }; m.Match(`$x + $y`).Where(h(m[`x`]) && f()).Report(`x`) }",
+	"func f(n int) bool { return n > 1 }\nfunc g(m dsl.Matcher) { h := func(v dsl.Var) bool { return f(8) && v.Pure }; f := func(v, w dsl.Var) bool { return v.Pure && w.Pure }; m.Match(`$x + $y`).Where(h(m[`x`]) && f(m[`x`], m[`y`])).Report(`x`) }",
+	"type T int\nfunc g(m dsl.Matcher) { h := func(v dsl.Var) bool { return T(1) == 1 && v.Pure }; T := func() bool { return m[`x`].Pure }; m.Match(`$x + $y`).Where(h(m[`x`]) && T()).Report(`x`) }",
 	"func g(m dsl.Matcher) { var f func(dsl.Var) bool; h := func(v dsl.Var) bool { return f(v) }; f := func(v dsl.Var) bool { return h(v) }; m.Match(`$x + $y`).Where(f(m[`x`])).Report(`x`) }",
 	"func g(m dsl.Matcher) { len := func(v dsl.Var) bool { return len(`a`) == 1 && v.Pure }; m.Match(`$x + $y`).Where(len(m[`x`])).Report(`x`) }",
 	"func g(m dsl.Matcher) { g := func(v dsl.Var) bool { return v.Pure }; m.Match(`$x + $y`).Where(g(m[`x`])).Report(`x`) }",
